@@ -7,6 +7,9 @@ use crate::{Context, PipelineArguments};
 
 mod convert;
 
+#[cfg(feature = "verif")]
+pub use convert::state::Imports as VerifImports;
+
 pub mod ast;
 pub mod name;
 
